@@ -1,19 +1,46 @@
-import Labella.Proofs.ChainOpt
-/-! # C02 — least-squares optimal placement -/
+import Labella.Proofs.LayoutSep
+/-! # C02 — labels are displaced as little as possible (least-squares optimal placement) -/
 namespace Labella.C02
-open Labella Labella.Chain
+open Labella Labella.Chain Labella.Layout
 
-/-- Every block list reachable from singletons keeps the invariant "non-empty, positive weights, all
-prefix residual sums ≤ 0": pooling a violating pair preserves it. -/
+/-- **Least squares.**  For every chain instance (positive weights) the solver's placement `x` costs no more
+than any placement `z` that keeps every gap exactly, with the strong-convexity margin
+`cost x + Σ wᵢ (zᵢ − xᵢ)² ≤ cost z`: any other placement that is at least as cheap must coincide with `x`,
+so the optimum is unique.  Walls are ordinary (heavy) variables of the chain, i.e. the bounds enter as the
+two terms `W (x_L − minPos)² + W (x_R − maxPos)²` of the cost. -/
+theorem solve_optimal (eps : ℚ) (heps : 0 ≤ eps) (vars : List Item) (gaps : List ℚ)
+    (hlen : gaps.length + 1 = vars.length) (hw : ∀ v ∈ vars, 0 < v.w)
+    (zs : List ℚ) (hz : zs.length = vars.length) (hfeas : SepBy 0 gaps zs) :
+    cost vars (solve eps vars gaps) + wdist vars (solve eps vars gaps) zs ≤ cost vars zs :=
+  solve_optimal' eps heps vars gaps hlen hw zs hz hfeas
+
+/-- … and that placement itself keeps every gap up to `eps` -/
+theorem solve_feasible (eps : ℚ) (heps : 0 ≤ eps) (vars : List Item) (gaps : List ℚ)
+    (hw : ∀ v ∈ vars, 0 < v.w) : SepBy eps gaps (solve eps vars gaps) :=
+  solve_feasible' eps heps vars gaps hw
+
+/-- **An item with enough room is not moved**: if the targets themselves keep every gap, they are the result. -/
+theorem solve_room_not_moved (eps : ℚ) (heps : 0 ≤ eps) (vars : List Item) (gaps : List ℚ)
+    (hlen : gaps.length + 1 = vars.length) (hw : ∀ v ∈ vars, 0 < v.w)
+    (hroom : SepBy 0 gaps (vars.map (·.t))) :
+    solve eps vars gaps = vars.map (·.t) :=
+  solve_room_not_moved' eps heps vars gaps hlen hw hroom
+
+/-- pooling keeps the invariant "non-empty, positive weights, every prefix residual sum ≤ 0" -/
 theorem pooling_keeps_invariant {eps : ℚ} (heps : 0 ≤ eps) (fuel : ℕ) {bs : List Block} (hwf : WF bs) :
     WF (satisfy eps fuel bs) :=
   satisfy_WF heps fuel hwf
 
-/-- The pooled placement is optimal among all order-keeping placements of the (gap-shifted) chain, with the
-strong-convexity margin: `cost x + Σ wᵢ (zᵢ − xᵢ)² ≤ cost z`; in particular the minimiser is unique. -/
-theorem pooled_placement_optimal {bs : List Block} (hwf : WF bs) (zs : List ℚ)
-    (hlen : zs.length = bs.flatten.length) (hz : Nondecr zs) :
-    cost2 bs.flatten (expandQ bs) + dist2 bs.flatten (expandQ bs) zs ≤ cost2 bs.flatten zs :=
-  chain_optimal hwf zs hlen hz
+/-- every reported position is within one half of the optimum -/
+theorem reported_within_half (x : ℚ) : |((roundHalfEven x : Int) : ℚ) - x| ≤ 1 / 2 :=
+  round_close' x
+
+/-- the chain instance `removeOverlap` builds always satisfies the hypotheses of the theorems above -/
+theorem removeOverlap_instance_ok (o : ROpts) (its : List LItem) (h : its ≠ []) :
+    (chainGaps o its).length + 1 = (chainVars o its).length ∧ ∀ v ∈ chainVars o its, 0 < v.w :=
+  ⟨chain_lengths o h, chainVars_pos o its⟩
+
+-- non-vacuity: three labels pushed apart, the middle one keeps its place by symmetry
+example : solve 0 [⟨1, 0⟩, ⟨1, 1⟩, ⟨1, 2⟩] [3, 3] = [-2, 1, 4] := by decide +kernel
 
 end Labella.C02
